@@ -139,6 +139,7 @@ ATOMS_A = ['User', 'Post', 'User.name', 'User.age', 'User.friends',
            'User.friends.name', 'User.best.age', '{1, 2}', '{1, 1}',
            '<int64>{}', '1', "'a'", '{"a", "b"}']
 ATOMS_B = ['Player', 'Card', 'FoilCard', 'SpecialCard', 'Player.deck',
+           'Card[is SpecialCard]', 'Player.deck[is FoilCard]',
            'Player.roles', 'Player.fav', 'Player.deck.cname', 'Player.name',
            'Player.deck.cost', 'Player.fav.cname', '{1, 2}', '<str>{}', '1']
 UNARY = ['select {x}', 'select count({x})', 'select exists {x}',
@@ -216,6 +217,22 @@ EXTRA_B = [
     'select (Player.deck union SpecialCard)',
     'select (Player.fav union FoilCard)',
     'select (Card union FoilCard)', 'select (SpecialCard union FoilCard)',
+    'select Card union Player union FoilCard',
+    'select Player union Card union FoilCard',
+    'select FoilCard union Player union Card',
+    'select (Card union Player) union SpecialCard',
+    'select Card { cname } union Card { cname }',
+    'select Card { cname } union FoilCard { cname }',
+    'select (Player.deck union Player.fav) union FoilCard',
+    'select Card union Player.fav', 'select Player.fav union Card',
+    'select Card[is SpecialCard] union FoilCard',
+    'select Card[is FoilCard] union SpecialCard',
+    'select Player { c := Card union FoilCard }'
+    if False else 'select distinct (Card union FoilCard)',
+    'select count(Card union FoilCard)',
+    'select (Card union FoilCard) filter .cname = "f"',
+    'select Player { x := (.deck union FoilCard) }',
+    'select Player { x := (.deck[is SpecialCard] union .fav) }',
     'select (Player.deck union FoilCard) filter .cname = "f"',
     'select (Player.deck union Player.fav)',
     'select Player.deck[is SpecialCard]',
